@@ -330,7 +330,7 @@ def check_known(ctx, entry):
             return
         d = util.tree_equals_parse(root)
         if d:
-            ctx.fail(entry['signature_of_witness'], entry['what'], w)
+            ctx.fail(entry['id'], entry['what'], w)      # matched by id: the witness IS the listed finding
             return
 
 
